@@ -8,6 +8,7 @@ package main
 // The baseline is never used to raise an alarm.
 
 import (
+	"crypto/sha1"
 	_ "embed"
 	"fmt"
 	"go/ast"
@@ -54,7 +55,7 @@ func (p *Prog) dumpNames() {
 		if fn.Obj.Exported() || strings.Contains(fn.Name, "#") || fn.Obj.Name() == "init" || fn.Obj.Name() == "main" || fn.Obj.Name() == "_" {
 			continue
 		}
-		lines = append(lines, fn.Name+"\t"+p.sigKey(fn.Obj))
+		lines = append(lines, fn.Name+"\t"+p.sigKey(fn.Obj)+"\t"+p.bodyPrint(fn))
 	}
 	sort.Strings(lines)
 	for _, l := range lines {
@@ -66,9 +67,13 @@ func (p *Prog) dumpNames() {
 func (p *Prog) resolveRenames() {
 	p.renamed = map[string]string{}
 	base := map[string]string{}
+	basePrint := map[string]string{}
 	for _, l := range strings.Split(namesBaseline, "\n") {
-		if parts := strings.SplitN(l, "\t", 2); len(parts) == 2 {
+		if parts := strings.Split(l, "\t"); len(parts) >= 2 {
 			base[parts[0]] = parts[1]
+			if len(parts) >= 3 {
+				basePrint[parts[0]] = parts[2]
+			}
 		}
 	}
 	if len(base) == 0 {
@@ -98,13 +103,33 @@ func (p *Prog) resolveRenames() {
 		k := p.sigKey(fn.Obj)
 		newBySig[k] = append(newBySig[k], fn)
 	}
+	type pair struct {
+		old string
+		fn  *Func
+	}
+	var pairs []pair
 	for sig, olds := range missingBySig {
 		news := newBySig[sig]
-		if len(olds) != 1 || len(news) != 1 {
+		if len(olds) == 1 && len(news) == 1 {
+			pairs = append(pairs, pair{olds[0], news[0]})
 			continue
 		}
-		fn := news[0]
-		old := olds[0]
+		// several functions of one signature were renamed together: tell them apart by their bodies
+		for _, old := range olds {
+			var match []*Func
+			for _, nf := range news {
+				if basePrint[old] != "" && p.bodyPrint(nf) == basePrint[old] {
+					match = append(match, nf)
+				}
+			}
+			if len(match) == 1 {
+				pairs = append(pairs, pair{old, match[0]})
+			}
+		}
+	}
+	for _, pr := range pairs {
+		fn := pr.fn
+		old := pr.old
 		p.renamed[old] = fn.Name
 		delete(p.Funcs, fn.Name)
 		fn.Name = old
@@ -458,4 +483,38 @@ func (p *Prog) resolveFieldRenames() {
 			}
 		}
 	}
+}
+
+// bodyPrint: a fingerprint of the function body that does not depend on the function's own name or on layout.
+func (p *Prog) bodyPrint(fn *Func) string {
+	if fn.Decl.Body == nil {
+		return ""
+	}
+	var sb strings.Builder
+	ast.Inspect(fn.Decl.Body, func(n ast.Node) bool {
+		switch x := n.(type) {
+		case *ast.Ident:
+			if x.Name == fn.Obj.Name() {
+				sb.WriteString("SELF ")
+			} else {
+				sb.WriteString(x.Name + " ")
+			}
+		case *ast.BasicLit:
+			sb.WriteString(x.Value + " ")
+		case *ast.BinaryExpr:
+			sb.WriteString(x.Op.String() + " ")
+		case *ast.UnaryExpr:
+			sb.WriteString(x.Op.String() + " ")
+		case *ast.AssignStmt:
+			sb.WriteString(x.Tok.String() + " ")
+		case *ast.BranchStmt:
+			sb.WriteString(x.Tok.String() + " ")
+		case nil:
+		default:
+			sb.WriteString(fmt.Sprintf("%T ", n))
+		}
+		return true
+	})
+	h := sha1.Sum([]byte(sb.String()))
+	return fmt.Sprintf("%x", h[:8])
 }
